@@ -158,9 +158,13 @@ func tolLo(lo time.Duration) time.Duration {
 }
 
 const (
-	longWait   = 7 * time.Second // a wait at least this long cannot elapse by accident
-	upperSlack = 5 * time.Second
-	promptness = 5 * time.Second
+	// A wait at least this long cannot elapse by accident.  (8-12 s was not enough: a machine-wide stall of 8 s was
+	// observed at load average 140, in which a 1 ms timer took 8.05 s; the waits asked for are now 1-2 h, which
+	// correct code never sleeps.)
+	longWait   = 30 * time.Minute
+	upperSlack = 30 * time.Second
+	promptness = 30 * time.Second
+	farMS      = 86_400_000 // 24 h: a budget / request deadline that is far even for the 1-2 h waits
 	tolDL      = 100 * time.Microsecond
 )
 
@@ -278,10 +282,10 @@ func gen(t *rapid.T) Script {
 		// Shutdown arrives in / right after attempt At, whose failure asks for a
 		// wait that cannot elapse by accident; neither budget nor deadline is near.
 		if s.Backoff.MaxElapsedMS != 0 {
-			s.Backoff.MaxElapsedMS = 60000
+			s.Backoff.MaxElapsedMS = farMS
 		}
 		if s.DeadlineMS != 0 {
-			s.DeadlineMS = 60000
+			s.DeadlineMS = farMS
 		}
 		at := rapid.IntRange(0, 3).Draw(t, "stop_at")
 		longInitial := at == 0 && rapid.Bool().Draw(t, "long-initial")
@@ -292,14 +296,14 @@ func gen(t *rapid.T) Script {
 			}
 			if i == at {
 				if longInitial {
-					s.Backoff.InitialUS = int64(rapid.IntRange(10_000_000, 14_000_000).Draw(t, "long_initial_us"))
+					s.Backoff.InitialUS = int64(rapid.IntRange(5_400_000_000, 7_200_000_000).Draw(t, "long_initial_us"))
 					s.Backoff.MaxIntUS = s.Backoff.InitialUS
 					if s.Backoff.RandX100 > 30 {
 						s.Backoff.RandX100 = 30
 					}
 				} else {
 					o.Throttle = true
-					o.ThrottleUS = int64(rapid.IntRange(8_000_000, 12_000_000).Draw(t, "long_throttle_us"))
+					o.ThrottleUS = int64(rapid.IntRange(3_600_000_000, 7_200_000_000).Draw(t, "long_throttle_us"))
 				}
 			}
 			s.Outcomes = append(s.Outcomes, o)
@@ -690,7 +694,7 @@ func scriptKey(v any) string {
 
 func run(s Script) (nontrivial bool, key string, f *vt.Finding) {
 	key = scriptKey(s)
-	cR.HangGuard(60*time.Second, s, "hang/retry", func() { nontrivial, f = runInner(&s) })
+	cR.HangGuard(90*time.Second, s, "hang/retry", func() { nontrivial, f = runInner(&s) })
 	return nontrivial, key, f
 }
 
@@ -770,6 +774,15 @@ func runInner(s *Script) (bool, *vt.Finding) {
 			if st.Mode == "wait" {
 				select {
 				case <-w.reached:
+				case <-done:
+					return
+				}
+			} else if s.Queue != "" {
+				// Component lifecycle: nothing is handed to an exporter that has been shut down (a wait_for_result
+				// queue would block such a producer forever).  With a queue the random stop instant is therefore
+				// counted from the moment the request is in flight, i.e. its first attempt has started.
+				select {
+				case <-w.first:
 				case <-done:
 					return
 				}
